@@ -57,6 +57,10 @@ type evFields struct {
 	Depth    int64
 	Redacts  string
 	NoOrigin bool // hand-signed only: leave the (optional) origin key out
+	// the "unsigned" member (nil: none); it is neither hashed nor signed
+	Unsigned json.RawMessage
+	// hand-signed only: further servers whose signatures the event carries besides the origin's
+	Signers []string
 }
 
 // refList spells a list of event IDs in the event format of the version (reference tuples / plain IDs).
@@ -109,8 +113,8 @@ func contentJSON(c interface{}) []byte {
 	return b
 }
 
-// build runs EventBuilder.Build with a real ed25519 key.
-func build(v gmsl.IRoomVersion, f evFields) (gmsl.PDU, error) {
+// builder fills an EventBuilder of the version from the fields.
+func builder(v gmsl.IRoomVersion, f evFields) *gmsl.EventBuilder {
 	prev, auth := f.Prev, f.Auth
 	if prev == nil {
 		prev = []string{}
@@ -122,12 +126,16 @@ func build(v gmsl.IRoomVersion, f evFields) (gmsl.PDU, error) {
 	if depth == 0 {
 		depth = 1
 	}
-	eb := v.NewEventBuilderFromProtoEvent(&gmsl.ProtoEvent{
+	return v.NewEventBuilderFromProtoEvent(&gmsl.ProtoEvent{
 		SenderID: f.Sender, RoomID: f.RoomID, Type: f.Type, StateKey: f.StateKey,
 		PrevEvents: prev, AuthEvents: auth, Depth: depth, Redacts: f.Redacts,
-		Content: contentJSON(f.Content),
+		Content: contentJSON(f.Content), Unsigned: spec.RawJSON(f.Unsigned),
 	})
-	return eb.Build(evNow, origin, keyID, testKey)
+}
+
+// build runs EventBuilder.Build with a real ed25519 key.
+func build(v gmsl.IRoomVersion, f evFields) (gmsl.PDU, error) {
+	return builder(v, f).Build(evNow, origin, keyID, testKey)
 }
 
 // contentHash is the specification's content hash: SHA-256 of the canonical JSON of the event
@@ -187,6 +195,21 @@ func handSigned(ver string, v gmsl.IRoomVersion, f evFields) []byte {
 		fatalf("handSigned: %v", err)
 	}
 	m["signatures"] = sm["signatures"]
+	if len(f.Signers) > 0 {
+		// every server signs the same bytes (the redacted event without signatures and unsigned) and the
+		// harness holds one key: the further signatures are the origin's, under the other names
+		var sigs map[string]map[string]string
+		if err := json.Unmarshal(sm["signatures"], &sigs); err != nil {
+			fatalf("handSigned: signatures: %v", err)
+		}
+		for _, name := range f.Signers {
+			sigs[name] = sigs[string(origin)]
+		}
+		m["signatures"] = sigs
+	}
+	if f.Unsigned != nil {
+		m["unsigned"] = f.Unsigned
+	}
 	b, _ = json.Marshal(m)
 	c, err := gmsl.CanonicalJSON(b)
 	if err != nil {
